@@ -48,7 +48,7 @@ func degrees(tier string) []int {
 	if tier == "thorough" {
 		return []int{8, 16, 32, 64, 128}
 	}
-	return []int{8, 16, 64}
+	return []int{8, 16, 32, 64}
 }
 
 // alphabet of boundary residues for modulus q, all < q
@@ -535,6 +535,12 @@ func nttScenario(N int, q uint64, cls string, rt ring.Type, tier string) engine.
 			// lazy variants: ranges + congruence, inputs in [0,q) and shifted into [q,2q)
 			s.NTTLazy(a, back)
 			for j := range back {
+				if back[j] > 6*q-2 && back[j] < 8*q && rt == ring.ConjugateInvariant {
+					// above the documented [0, 6q-2] but below 8q (no wrap-around for supported primes):
+					// reported under its own signature so that a real overflow (>= 8q) stays distinct
+					c.Fail(sig+"NTTLazy/range-above-documented-6q-2(below-8q)", "N=%d q=%d fam=%d: NTTLazy out[%d]=%d = %.3f·q > documented 6q-2", N, q, fi, j, back[j], float64(back[j])/float64(q))
+					break
+				}
 				if back[j] > 6*q-2 {
 					c.Fail(sig+"NTTLazy/range", "N=%d q=%d fam=%d: NTTLazy out[%d]=%d > 6q-2", N, q, fi, j, back[j])
 					return
@@ -1424,18 +1430,18 @@ func scenarios(tier string) []engine.Scenario {
 	for _, N := range degrees(tier) {
 		for _, cl := range classes(tier) {
 			qs := cl.q(uint64(4 * N)) // ≡1 mod 4N: valid for both ring types
-			if tier != "thorough" {
+			if tier != "thorough" && N >= 32 {
 				if cl.name == "tiny" || cl.name == "big" {
-					// quick: first and last of the class
+					// quick, larger degrees: first and last of the class
 					qs = []uint64{qs[0], qs[len(qs)-1]}
 				} else {
 					qs = qs[:1]
 				}
 			}
 			for _, q := range qs {
-				if N <= 64 {
+				if N <= 64 || (N == 128 && cl.name == "big") {
 					for _, k := range ks {
-						if tier != "thorough" && N == 64 && k.scalars == 2 {
+						if tier != "thorough" && N >= 32 && k.scalars == 2 {
 							continue // quadratic scalar product: N=8,16 only in quick
 						}
 						scs = append(scs, kernelScenario(k, N, q, cl.name))
